@@ -118,7 +118,17 @@ def universe(name, keys="plain"):
         leaves = list("abcd")
     else:
         raise KeyError(name)
-    return {"name": name, "keys": keys, "loc": loc, "leaves": leaves,
+    return {"name": name, "keys": keys, "loc": loc, "leaves": leaves, "label": "s",
+            "inv": {v: k for k, v in loc.items()}}
+
+
+def rebase(uni, label="t", prefix=(("item", "sub"),)):
+    """the same universe with the data one level down in another container:  s[...] -> t['sub'][...]"""
+    loc = {}
+    for l, (lb, steps) in uni["loc"].items():
+        loc[l] = (label, tuple(prefix) + steps) if lb == uni["label"] else (lb, steps)
+    loc["__sub"] = (label, tuple(prefix))
+    return {"name": uni["name"] + "/rebased", "keys": uni["keys"], "loc": loc, "leaves": uni["leaves"], "label": label,
             "inv": {v: k for k, v in loc.items()}}
 
 
@@ -126,17 +136,25 @@ def universe(name, keys="plain"):
 class World:
     """Real containers + manager for one universe, started from a spec `mem`."""
 
-    def __init__(self, uni, mem, taskspec=None):
+    def __init__(self, uni, mem, taskspec=None, manager=None):
         self.uni = uni
         self.ctl = Ctl()
         self.taskspec = taskspec or {}
-        self.s = self._build_container(mem)
-        self.m = xdeps.Manager()
-        self.sref = self.m.ref(self.s, "s")
-        self.fref = self.m.ref(Funcs, "f")
-        self.roots = {"s": self.sref, "f": self.fref}
+        lab = uni["label"]
+        if manager is None:
+            self.s = self._build_container(mem)
+            self.m = xdeps.Manager()
+            self.sref = self.m.ref(self.s, lab)
+            self.fref = self.m.ref(Funcs, "f")
+        else:                   # a manager obtained elsewhere (unpickled): adopt its containers
+            self.m = manager
+            self.sref = manager.containers[lab]
+            self.fref = manager.containers["f"]
+            self.s = self.sref._owner
+        self.roots = {lab: self.sref, "f": self.fref}
         self.runs = []          # task ids in execution order (recorded by the Task.run wrappers)
         self.fault_at_run = None
+        self.shadows = []       # (world, expected abs_state): managers that must stay as they were (C12 independence)
 
     # -- containers ------------------------------------------------------------------------
     def _new(self, kind, name):
@@ -150,14 +168,14 @@ class World:
         return c
 
     def _build_container(self, mem):
-        root = self._new("dict", "s")
+        root = self._new("dict", self.uni["label"])
         # inner containers first
         inner = {}
         for l, (label, steps) in self.uni["loc"].items():
-            if label != "s" or l in self.uni["leaves"]:
+            if label != self.uni["label"] or l in self.uni["leaves"]:
                 continue
             childkinds = {st[len(steps)] for ll, (lb, st) in self.uni["loc"].items()
-                          if lb == "s" and len(st) == len(steps) + 1 and st[:len(steps)] == steps}
+                          if lb == self.uni["label"] and len(st) == len(steps) + 1 and st[:len(steps)] == steps}
             kinds = {k for k, _ in childkinds}
             if kinds == {"attr"}:
                 c = self._new("obj", l)
@@ -177,7 +195,7 @@ class World:
     def _raw_set(root, steps, v):
         o = root
         for kind, key in steps[:-1]:
-            o = getattr(o, key) if kind == "attr" else (dict.__getitem__(o, key) if isinstance(o, dict) else list.__getitem__(o, key))
+            o = getattr(o, key) if kind == "attr" else o[key]
         kind, key = steps[-1]
         if kind == "attr":
             object.__setattr__(o, key, v)
@@ -353,7 +371,9 @@ def abs_idx(w):
         for k, rc in getattr(m, name).items():
             for v, cnt in rc.items():
                 if cnt > 0:
-                    s.add((keyf(uni, k), valf(uni, v)))
+                    a, b = keyf(uni, k), valf(uni, v)
+                    if a != "__sub" and b != "__sub":        # the extra enclosing container of a rebased universe
+                        s.add((a, b))
         out[name] = s
     return out
 
@@ -439,6 +459,7 @@ def execute(w, lab, fault=None):
         else:
             w.fault_at_run = fault
     exc = None
+    extra = {}
     _current["w"] = w
     try:
         if a == "SetValue":
@@ -473,6 +494,10 @@ def execute(w, lab, fault=None):
                 c = w.m.clone()
                 # adopt the regenerated indices: from here on the world runs on what clone() built
                 w.m.tasks, w.m.rdeps, w.m.rtasks, w.m.deptasks, w.m.tartasks = c.tasks, c.rdeps, c.rtasks, c.deptasks, c.tartasks
+        elif a == "Transfer":
+            extra["world"] = transfer(w, lab)
+        elif a == "GenFun":
+            extra.update(gen_fun(w, lab))
         else:
             raise KeyError(a)
     except Exception as ex:        # noqa: every exception class is an observation
@@ -488,4 +513,55 @@ def execute(w, lab, fault=None):
             runs.append(abs_tid(w.uni, t))
         except Uncovered:
             runs.append(repr(t))
-    return {"exc": exc, "excname": type(exc).__name__ if exc is not None else None, "runs": runs, "writes": list(w.ctl.writes)}
+    return {"exc": exc, "excname": type(exc).__name__ if exc is not None else None, "runs": runs, "writes": list(w.ctl.writes), **extra}
+
+
+def transfer(w, lab):
+    """-> the world the behaviour continues in"""
+    import pickle
+    kind = lab["kind"]
+    if kind in ("pickle_copy", "pickle_orig"):
+        m2 = pickle.loads(pickle.dumps(w.m))
+        w2 = World(w.uni, None, w.taskspec, manager=m2)
+        m2.verify()
+        snap = abs_state(w)
+        if kind == "pickle_copy":
+            w2.shadows = w.shadows + [(w, snap)]
+            return w2
+        w.shadows = w.shadows + [(w2, snap)]
+        return w
+    if kind == "dumpload":
+        w2 = World(w.uni, w.read_mem(), w.taskspec)
+        w2.m.load(w.m.dump())
+    elif kind == "copy_plain":
+        w2 = World(w.uni, w.read_mem(), w.taskspec)
+        w2.m.copy_expr_from(w.m, w.uni["label"])
+    elif kind == "copy_bind":
+        u2 = rebase(w.uni)
+        w2 = World(u2, w.read_mem(), w.taskspec)
+        w2.m.copy_expr_from(w.m, w.uni["label"], bindings={w.sref: w2.sref["sub"]})
+    elif kind == "copy_keep":
+        w2 = World(w.uni, w.read_mem(), w.taskspec)
+        _assign(w2, lab["keeploc"], w2.build_expr(lab["keepexpr"]))
+        w2.m.copy_expr_from(w.m, w.uni["label"], overwrite=False)
+    else:
+        raise KeyError(kind)
+    w2.shadows = list(w.shadows)
+    return w2
+
+
+def gen_fun(w, lab):
+    """C13: build the setter for the argument references, check its source, call it."""
+    kwargs = {f"p{i}": w.ref(l) for i, l in enumerate(lab["args"])}
+    src = w.m.mk_fun("gf", **kwargs)
+    fun = w.m.gen_fun("gf", **kwargs)
+    lines = [ln.strip() for ln in src.splitlines()[1:]]
+    nargs = len(lab["args"])
+    order = []
+    ns = dict(w.roots)
+    for ln in lines[nargs:]:
+        lhs = ln.split(" = ", 1)[0]
+        order.append(abs_loc(w.uni, eval(lhs, {}, ns)))
+    fun(*lab["vals"])
+    return {"gen_order": order, "gen_src": src}
+
